@@ -453,7 +453,22 @@ def r_dispatch(idx, rep, rule="R-DISPATCH"):
             rep.check("size" in attrs and e2 is not None and ("/ 2" in u(e2) or "0.5" in u(e2)) and flows.get("i") == {"per-axis"}, rule, key + " half sizes per axis", callee.where,
                       "box data must be size / 2 and box_support must use data[i] on axis i (data = `%s`, flows %s)" % (u(e2) if e2 is not None else None, flows))
         elif T == "Ellipsoid":
-            good = len(slots) == 3 and all(u(slots[j][1]).replace(" ", "") == "collider.radii[%d]*collider.radii[%d]" % (j, j) for j in range(3))
+            def square_of(e):
+                """what `e` is the square of (text), or None: x * x, x ** 2, np.square(x), np.power(x, 2)"""
+                if isinstance(e, ast.BinOp) and isinstance(e.op, ast.Mult) and u(e.left) == u(e.right):
+                    return u(e.left)
+                if isinstance(e, ast.BinOp) and isinstance(e.op, ast.Pow) and const(e.right) in (2, 2.0):
+                    return u(e.left)
+                if isinstance(e, ast.Call) and call_name(e) == "np.square" and len(e.args) == 1 and not e.keywords:
+                    return u(e.args[0])
+                if isinstance(e, ast.Call) and call_name(e) == "np.power" and len(e.args) == 2 and const(e.args[1]) in (2, 2.0):
+                    return u(e.args[0])
+                return None
+            if set(slots) == {"*"}:
+                # the whole vector at once: element-wise square of the radii keeps the axis order by construction
+                good = (square_of(slots["*"][1]) or "").endswith(".radii")
+            else:
+                good = len(slots) == 3 and all((square_of(slots[j][1]) or "").replace(" ", "").endswith(".radii[%d]" % j) for j in range(3))
             rep.check(good, rule, key + " squared radii in order", callee.where,
                       "ellipsoid data must be (r0^2, r1^2, r2^2) in axis order; got %s" % [u(slots[j][1]) for j in sorted(slots) if j != "*"])
 
